@@ -613,10 +613,15 @@ func fnNeverNil(fn *ssa.Function, idx int, depth int) bool {
 	}
 	ok = ok && n > 0 && fn.Recover == nil
 	if idx == 0 {
-		if ok {
+		switch {
+		case ok:
 			neverNilFn[fn] = 1
-		} else {
-			neverNilFn[fn] = 2
+		case depth == 0:
+			neverNilFn[fn] = 2 // a complete evaluation said no
+		default:
+			// a negative answer reached inside another evaluation may be due to the depth bound or to a cycle
+			// through a function still in progress: do not remember it
+			delete(neverNilFn, fn)
 		}
 	}
 	return ok
